@@ -631,8 +631,20 @@ type c18TogStat struct {
 
 // c18CheckSurface checks one surface pattern under one option set O (given in the three
 // spellings) against the pushed-down form and the reference matcher.
+// c18PySpelling rewrites named groups and named back-references into the Python spellings that RE2 mode adds.
+func c18PySpelling(text string) string {
+	text = strings.ReplaceAll(text, "(?<g", "(?P<g")
+	for _, n := range []string{"g1", "g2", "g3", "g4"} {
+		text = strings.ReplaceAll(text, `\k<`+n+`>`, "(?P="+n+")")
+	}
+	return text
+}
+
 func c18CheckSurface(c *Ctx, fam string, alts [][]*sNode, O, extraBase optSet, inputs [][]rune, st *c18TogStat) {
 	text := c18SurfaceText(alts)
+	if extraBase.has('2') {
+		text = c18PySpelling(text)
+	}
 	ref, err := c18LowerAlts(alts, c18EnvFrom(O))
 	if err != nil {
 		atomic.AddInt64(&st.illFormed, 1)
@@ -883,6 +895,12 @@ func c18TogN(headers []string) map[string][][][]*sNode {
 						add("N2 (G1(?H)G2)G3 tail", t, sq(sg(gCap, "", sq(g1, ssw(h1), g2)), g3))
 						add("N4 (?:G1|(?H)G2)G3 tail", t, sq(sg(gNonCap, "", sq(g1), sq(ssw(h1), g2)), g3))
 						add("N5 (?:G1(?H:G2))G3 tail", t, sq(sg(gNonCap, "", sq(g1, sg(gOpt, h1, sq(g2)))), g3))
+						if k1 == 0 && k2 == 1 {
+							// a named group and a back-reference to it inside the scope of the switch, a group right after
+							// (under RE2 the pair is spelled (?P<g2> ) and (?P=g2), see c18PySpelling)
+							add("N7 (?H:G2 \\k<g2>)G3 tail", t, sq(sg(gOpt, h1, sq(g2, sa(&Node{K: KRef, Name: "g2"}))), g3))
+							add("N7 ((?H)G2 \\k<g2>)G3 tail", t, sq(sg(gCap, "", sq(ssw(h1), g2, sa(&Node{K: KRef, Name: "g2"}))), g3))
+						}
 						if k1 == 0 {
 							// an expression conditional inside the scope of the switch, a plain group right after the scope
 							ce := &sNode{k: sGroup, gk: gCondExp, alts: [][]*sNode{sq(sa(anyc())), sq(g2), sq(sa(lit('b')))}}
@@ -1190,6 +1208,11 @@ func runC18(c *Ctx) {
 	tn := c18TogN(hN)
 	for _, fam := range sortedKeys(tn) {
 		tj = append(tj, c18TogJob{fam: fam, cases: tn[fam], Os: []optSet{"", "n", "in"}, alpha: []rune{'a', 'b', 'A'}, alphaN: "{a,b,A}", maxL: 4})
+	}
+	for _, fam := range sortedKeys(tn) {
+		if strings.HasPrefix(fam, "N7") || strings.HasPrefix(fam, "N3") {
+			tj = append(tj, c18TogJob{fam: fam + " [Python spellings]", cases: tn[fam], Os: []optSet{"", "n"}, extra: "2", alpha: []rune{'a', 'b', 'A'}, alphaN: "{a,b,A}", maxL: 4})
+		}
 	}
 	mixFam := "MIX (X (?H1)Y (?H2)Z )W, (?H1:X (?H2:Y )Z )W\\1"
 	tj = append(tj, c18TogJob{fam: mixFam, cases: c18TogMix(hMix), Os: []optSet{"", "x", "imsnx"}, alpha: []rune{'a', 'A', ' '}, alphaN: "{a,A,blank}", maxL: 5})
